@@ -535,6 +535,19 @@ func GenFileSpec(r *Rng, depth, maxDepth int, aligned bool) *uefigen.File {
 // would need their decoding at ParseCLI time).
 var Compressed = true
 
+// PadTexts: the GUID texts a pad file can have (erase polarity 0xFF or 0x00, sixteen times).
+var PadTexts = []string{"FFFFFFFF-FFFF-FFFF-FFFF-FFFFFFFFFFFF", "00000000-0000-0000-0000-000000000000"}
+
+// MatchesPad: the pattern (or literal) selects pad files wherever there are any. The image spec
+// does not know the pad files (the layout and Assemble insert and drop them), so the spec-side
+// reference semantics (Expect, touched volumes, match counts) cannot be used for such an operation.
+func MatchesPad(o EOp) bool {
+	if o.Kind == "ro" || (o.Kind == "ins" && o.It == "dxe") {
+		return false
+	}
+	return matcherOf(o.Target, o.Re)(PadTexts[0])
+}
+
 // LargeSectioned switches on files WITH sections written in the FFSv3 large form (attribute bit 0,
 // size field 0xFFFFFF, 64-bit size, 32-byte header) although smaller than 16 MiB. Every save
 // rewrites such a file in the small form, also in volumes no operation names: the byte-level
@@ -755,10 +768,12 @@ func genPattern(r *Rng, reg *uefigen.Region, withVols bool) (string, []string) {
 	}
 	seen := map[string]bool{}
 	var set []string
-	cands := files
+	// pad files (inserted by the layout, by Assemble, by remove_pad) are files too: their GUID is
+	// the erase polarity sixteen times
+	cands := append(append([]string{}, files...), PadTexts...)
 	if withVols {
 		// FVName of a volume without an extended header is the zero GUID
-		cands = append(append([]string{}, files...), GuidText([16]byte{}))
+		cands = append(cands, GuidText([16]byte{}))
 	}
 	for _, t := range cands {
 		if m(t) && !seen[t] {
@@ -828,6 +843,7 @@ type ECase struct {
 	Reg     *uefigen.Region // the spec after the edits (generator side only)
 	Comp    bool            // the image holds compressed sections: the model needs codec tables
 	Flat    bool            // image and operations are in the scope of C02_valid_after_edits_flat
+	PadPat  bool            // an operation's pattern selects pad files: no spec-side expectation
 }
 
 func GenCase(r *Rng, maxDepth int, nops int) ECase {
@@ -847,6 +863,9 @@ func GenCase(r *Rng, maxDepth int, nops int) ECase {
 		}
 	}
 	c := ECase{Img: img, Ops: ops, Reg: reg, Comp: hasComp, Flat: flat && OpsFlat(ops)}
+	for _, o := range ops {
+		c.PadPat = c.PadPat || MatchesPad(o)
+	}
 	if AnyBad(ops) {
 		c.Expect, c.Touched = "C", "-"
 	} else if errAt >= 0 {
@@ -987,11 +1006,18 @@ func GenCaseGrammar(r *Rng, nops int) ECase {
 
 // FindExpect: the files a pattern selects (GUIDs, as "F:<guid>;" entries sorted), by full match on
 // the spec.
-func FindExpect(reg *uefigen.Region, pat string) string {
+func FindExpect(reg *uefigen.Region, img []byte, pat string) string {
 	var es []string
-	for _, m := range findSpec(reg, matcherOf(pat, true), false, -1) {
-		if m.isFile {
-			es = append(es, "F:"+H(m.file.GUID[:])+";")
+	m := matcherOf(pat, true)
+	for _, x := range findSpec(reg, m, false, -1) {
+		if x.isFile {
+			es = append(es, "F:"+H(x.file.GUID[:])+";")
+		}
+	}
+	// the pad files of the image (not in the spec), read back by the independent reader
+	for _, g := range PadFileGUIDs(img) {
+		if m(GuidText(g)) {
+			es = append(es, "F:"+H(g[:])+";")
 		}
 	}
 	sortStrings(es)
@@ -1012,6 +1038,7 @@ func GenPatternFor(r *Rng, reg *uefigen.Region) (string, []string) { return genP
 // FullMatches: the texts of the spec (file GUID texts, UI names) that the pattern matches in full.
 func FullMatches(reg *uefigen.Region, pat string) []string {
 	files, _ := present(reg)
+	files = append(files, PadTexts...)
 	m := matcherOf(pat, true)
 	seen := map[string]bool{}
 	var set []string
